@@ -2248,7 +2248,7 @@ where
     {
         self.de.eat_char();
 
-        let peek = match tri!(self.de.next_char()) {
+        let peek = match tri!(self.de.peek()) {
             Some(b) => b,
             None => {
                 return Err(self.de.peek_error(ErrorCode::EofWhileParsingValue));
@@ -2257,14 +2257,18 @@ where
 
         let value = match peek {
             b't' => {
+                self.de.eat_char();
                 tri!(self.de.parse_ident(b"rue\""));
                 visitor.visit_bool(true)
             }
             b'f' => {
+                self.de.eat_char();
                 tri!(self.de.parse_ident(b"alse\""));
                 visitor.visit_bool(false)
             }
             _ => {
+                // Not a boolean: parse the whole key, from its first byte, so
+                // that it can be reported.
                 self.de.scratch.clear();
                 let s = tri!(self.de.read.parse_str(&mut self.de.scratch));
                 Err(de::Error::invalid_type(Unexpected::Str(&s), &visitor))
